@@ -682,7 +682,15 @@ var segAlphabet = []string{"a", "b", "*", "?", "a*", "[ab]", "[^a]", `\a`, "[a-"
 var segClass = map[string]string{
 	"a": "lit", "b": "lit", "*": "star", "?": "qm", "a*": "lit-star", "[ab]": "class", "[^a]": "negclass",
 	`\a`: "esc", "[a-": "bad", "": "empty",
+	"*b": "star-lit", "**b": "stars-lit", "a**": "lit-stars", "**": "stars",
 }
+
+// starSegs: segments with a star in front of text and with several stars in a
+// row (round 12: the chunk scanner of the hand-written Match swallows every
+// leading star of a chunk). They are not part of the product alphabet - the
+// thorough tier is at its budget - but every pattern of <= 2 segments that
+// holds one of them is asked, beside the product.
+var starSegs = []string{"*b", "**b", "a**", "**"}
 
 // The segments of the name-shape trees: "*" and every name as a literal
 // prefix followed by each tail.
@@ -780,6 +788,14 @@ func patterns(maxSeg int) [][]string {
 
 		out = append(out, next...)
 		cur = next
+	}
+
+	for _, x := range starSegs {
+		out = append(out, []string{x})
+
+		for _, s := range segAlphabet {
+			out = append(out, []string{x, s}, []string{s, x})
+		}
 	}
 
 	return out
